@@ -21,7 +21,7 @@ const prop = "C20"
 
 // op of a generator-pool history.
 type op struct {
-	Kind   string `json:"kind"` // newSno | newFallback | fallbackBurst | draw | snapshot | restore
+	Kind   string `json:"kind"` // newSno | newFallback | fallbackBurst | draw | drawMany | snapshot | restore
 	Gen    int    `json:"gen"`  // generator index (modulo pool size)
 	Gor    int    `json:"gor"`  // goroutines drawing
 	Batch  int    `json:"batch"`
@@ -39,12 +39,22 @@ type genState struct {
 	// for restored generators: the ids its source had issued before the snapshot
 	forbidden map[string]struct{}
 	own       map[string]struct{}
+	// lineage: generators related by snapshot / restore share it (a restored
+	// generator continues its source's sequence, so the two may issue the same
+	// ids after the snapshot); ids of generators of DIFFERENT lineages never collide
+	lineage int
 }
 
 type snap struct {
-	data   []byte
-	before map[string]struct{}
-	kind   string
+	data    []byte
+	before  map[string]struct{}
+	kind    string
+	lineage int
+}
+
+type issued struct {
+	label   string
+	lineage int
 }
 
 type result struct {
@@ -53,6 +63,7 @@ type result struct {
 	MaxGor          int
 	Restores        int
 	Alive           int
+	ManyGens        bool
 	Log             []string
 }
 
@@ -68,10 +79,39 @@ func run(d descriptor) *result {
 	}()
 	var pool []*genState
 	var snaps []snap
-	globalS := map[string]string{} // String() -> generator label (non-restored generators only)
-	globalB := map[string]string{}
+	globalS := map[string]issued{} // String() -> who issued it
+	globalB := map[string]issued{}
+	lineages := 0
 	addGen := func(kind string, g id.IGenerator) {
-		pool = append(pool, &genState{g: g, kind: kind, own: map[string]struct{}{}})
+		lineages++
+		pool = append(pool, &genState{g: g, kind: kind, own: map[string]struct{}{}, lineage: lineages})
+	}
+	// record books one drawn id; false = violation (r filled in)
+	record := func(oi int, gs *genState, label string, x id.Id, how string) bool {
+		s, b := x.String(), string(x.Bytes())
+		r.Draws++
+		if _, dup := gs.own[s]; dup {
+			r.Symptom, r.Detail = "duplicate", fmt.Sprintf("op %d: %s issued id %s twice (%s)", oi, label, s, how)
+			return false
+		}
+		gs.own[s] = struct{}{}
+		if gs.restored {
+			if _, bad := gs.forbidden[s]; bad {
+				r.Symptom, r.Detail = "restore-collision", fmt.Sprintf("op %d: restored %s issued id %s that its source had issued before the snapshot", oi, label, s)
+				return false
+			}
+		}
+		if other, dup := globalS[s]; dup && other.lineage != gs.lineage {
+			r.Symptom, r.Detail = "cross-generator", fmt.Sprintf("op %d: %s issued id %s already issued by %s (%s)", oi, label, s, other.label, how)
+			return false
+		}
+		if other, dup := globalB[b]; dup && other.lineage != gs.lineage {
+			r.Symptom, r.Detail = "cross-generator-bytes", fmt.Sprintf("op %d: %s issued id bytes already issued by %s", oi, label, other.label)
+			return false
+		}
+		globalS[s] = issued{label, gs.lineage}
+		globalB[b] = issued{label, gs.lineage}
+		return true
 	}
 	mk := func() error {
 		g, err := id.GetSno().NewIdGenerator(ctx, tracer)
@@ -139,30 +179,47 @@ func run(d descriptor) *result {
 			label := fmt.Sprintf("gen%d(%s)", o.Gen%len(pool), gs.kind)
 			for _, ids := range outs {
 				for _, x := range ids {
-					s, b := x.String(), string(x.Bytes())
-					r.Draws++
-					if _, dup := gs.own[s]; dup {
-						r.Symptom, r.Detail = "duplicate", fmt.Sprintf("op %d: %s issued id %s twice (%d goroutines x %d draws)", oi, label, s, gor, batch)
+					if !record(oi, gs, label, x, fmt.Sprintf("%d goroutines x %d draws", gor, batch)) {
 						return r
 					}
-					gs.own[s] = struct{}{}
-					if gs.restored {
-						if _, bad := gs.forbidden[s]; bad {
-							r.Symptom, r.Detail = "restore-collision", fmt.Sprintf("op %d: restored %s issued id %s that its source had issued before the snapshot", oi, label, s)
-							return r
-						}
-						continue
+				}
+			}
+		case "drawMany":
+			// 2..4 different generators draw at the same time, one goroutine each
+			k := 2 + o.Gor%3
+			if k > len(pool) {
+				k = len(pool)
+			}
+			if k < 2 {
+				continue
+			}
+			first := o.Gen % len(pool)
+			batch := o.Batch
+			outs := make([][]id.Id, k)
+			var wg sync.WaitGroup
+			for w := 0; w < k; w++ {
+				g := pool[(first+w)%len(pool)].g
+				wg.Add(1)
+				go func(w int) {
+					defer wg.Done()
+					ids := make([]id.Id, batch)
+					for i := range ids {
+						ids[i] = g.New()
 					}
-					if other, dup := globalS[s]; dup {
-						r.Symptom, r.Detail = "cross-generator", fmt.Sprintf("op %d: %s issued id %s already issued by %s", oi, label, s, other)
+					outs[w] = ids
+				}(w)
+			}
+			wg.Wait()
+			if k*batch >= 10000 {
+				r.ManyGens = true
+			}
+			for w, ids := range outs {
+				gs := pool[(first+w)%len(pool)]
+				label := fmt.Sprintf("gen%d(%s)", (first+w)%len(pool), gs.kind)
+				for _, x := range ids {
+					if !record(oi, gs, label, x, fmt.Sprintf("%d generators drawing %d ids each at the same time", k, batch)) {
 						return r
 					}
-					if other, dup := globalB[b]; dup {
-						r.Symptom, r.Detail = "cross-generator-bytes", fmt.Sprintf("op %d: %s issued id bytes already issued by %s", oi, label, other)
-						return r
-					}
-					globalS[s] = label
-					globalB[b] = label
 				}
 			}
 		case "snapshot":
@@ -179,7 +236,7 @@ func run(d descriptor) *result {
 			for k := range gs.own {
 				before[k] = struct{}{}
 			}
-			snaps = append(snaps, snap{data: data, before: before, kind: gs.kind})
+			snaps = append(snaps, snap{data: data, before: before, kind: gs.kind, lineage: gs.lineage})
 		case "restore":
 			if len(snaps) == 0 || len(pool) >= 12 {
 				continue
@@ -190,7 +247,7 @@ func run(d descriptor) *result {
 				r.Symptom, r.Detail = "restore", err.Error()
 				return r
 			}
-			pool = append(pool, &genState{g: g, kind: "sno", restored: true, forbidden: sp.before, own: map[string]struct{}{}})
+			pool = append(pool, &genState{g: g, kind: "sno", restored: true, forbidden: sp.before, own: map[string]struct{}{}, lineage: sp.lineage})
 			r.Restores++
 		}
 	}
@@ -203,8 +260,17 @@ func draw(rt *rapid.T, budget int) descriptor {
 	n := rapid.IntRange(3, 14).Draw(rt, "ops")
 	left := budget
 	for i := 0; i < n; i++ {
-		k := rapid.SampledFrom([]string{"draw", "draw", "draw", "newSno", "newFallback", "fallbackBurst", "snapshot", "restore"}).Draw(rt, "kind")
+		k := rapid.SampledFrom([]string{"draw", "draw", "draw", "drawMany", "drawMany", "newSno", "newSno", "newFallback", "fallbackBurst", "snapshot", "restore"}).Draw(rt, "kind")
 		o := op{Kind: k, Gen: rapid.IntRange(0, 11).Draw(rt, "gen"), Gor: rapid.IntRange(0, 15).Draw(rt, "gor"), SnapID: rapid.IntRange(0, 5).Draw(rt, "snap")}
+		if k == "drawMany" {
+			o.Batch = rapid.SampledFrom([]int{10, 1000, 5000, 20000}).Draw(rt, "batch")
+			cost := o.Batch * 4
+			if cost > left {
+				o.Batch = 10
+				cost = 40
+			}
+			left -= cost
+		}
 		if k == "draw" {
 			o.Batch = rapid.SampledFrom([]int{1, 10, 100, 1000, 5000, 20000}).Draw(rt, "batch")
 			cost := o.Batch * (1 + o.Gor%16)
@@ -259,6 +325,9 @@ func TestC20Pool(t *testing.T) {
 		}
 		if r.Restores > 0 {
 			cls = append(cls, "restore")
+		}
+		if r.ManyGens {
+			cls = append(cls, "severalGeneratorsAtOnce>=1e4")
 		}
 		rec.Case("TestC20Pool", hash, r.MaxGor >= 2 || r.Alive >= 2 || r.Restores > 0, cls, map[string]any{"case": d, "draws": r.Draws})
 		if r.Symptom != "" {
